@@ -378,6 +378,137 @@ func ZZ_C10_map() {
 	}
 }
 
+// ---- typed maps: the script key is converted to the map's key type as Go
+// converts it (int64 -> int32 wraps, float -> integer truncates, integer ->
+// string is the rune conversion); a key that cannot be converted is not in
+// the map.
+
+var zzTypedMapNames = []string{"map[int32]int64", "map[float64]int64", "map[int]int64", "map[string]int64"}
+
+func zzTypedMapNew(kt int) (interface{}, []interface{}) {
+	switch kt {
+	case 0:
+		return map[int32]int64{}, []interface{}{int32(1), int32(2)}
+	case 1:
+		return map[float64]int64{}, []interface{}{float64(1), float64(2.5)}
+	case 2:
+		return map[int]int64{}, []interface{}{int(1), int(2)}
+	}
+	return map[string]int64{}, []interface{}{"k", "A"}
+}
+
+// zzConvKey: Go's conversion of a script key to the key type.
+func zzConvKey(kt int, key interface{}) (interface{}, bool) {
+	switch kt {
+	case 0:
+		switch k := key.(type) {
+		case int64:
+			return int32(k), true
+		case float64:
+			return int32(k), true
+		case string:
+			// anko: a string of at most one byte converts to its rune (int32 is rune)
+			if len(k) == 0 {
+				return int32(0), true
+			}
+			if len(k) == 1 {
+				return int32(k[0]), true
+			}
+		}
+	case 1:
+		switch k := key.(type) {
+		case int64:
+			return float64(k), true
+		case float64:
+			return k, true
+		}
+	case 2:
+		switch k := key.(type) {
+		case int64:
+			return int(k), true
+		case float64:
+			return int(k), true
+		}
+	case 3:
+		switch k := key.(type) {
+		case int64:
+			if int64(rune(k)) != k {
+				return "\uFFFD", true // Go's integer -> string conversion of a non-rune
+			}
+			return string(rune(k)), true
+		case string:
+			return k, true
+		}
+	}
+	return nil, false
+}
+
+var zzScriptKeys = []interface{}{int64(1), int64(2), int64(4294967297), int64(3), float64(1), float64(2.5), "k", "A", int64(65), true, "kk", int64(107)}
+
+// ZZ_C10_typed_map: read / write / delete on typed maps with keys of the
+// key type, of a convertible type and of an inconvertible type.
+func ZZ_C10_typed_map() {
+	kt := zz.Choose(len(zzTypedMapNames))
+	m, pool := zzTypedMapNew(kt)
+	mv := reflect.ValueOf(m)
+	mirror := map[interface{}]int64{}
+	for _, k := range pool {
+		if zz.Choose(2) == 1 {
+			v := zz.Int64()
+			mv.SetMapIndex(reflect.ValueOf(k), reflect.ValueOf(v))
+			mirror[k] = v
+		}
+	}
+	same := func() bool {
+		if mv.Len() != len(mirror) {
+			return false
+		}
+		ok := true
+		for k, v := range mirror {
+			x := mv.MapIndex(reflect.ValueOf(k))
+			if !x.IsValid() {
+				return false
+			}
+			ok = zz.And(ok, x.Int() == v)
+		}
+		return ok
+	}
+	e := env.NewEnv()
+	e.Define("a", m)
+	key := zzScriptKeys[zz.Choose(len(zzScriptKeys))]
+	ck, convertible := zzConvKey(kt, key)
+	id := zzTypedMapNames[kt]
+	switch zz.Choose(3) {
+	case 0: // read
+		rv, err := zzEval(e, &ast.ItemExpr{Item: zzIdent("a"), Index: zzLit(key)})
+		if !convertible {
+			zz.Assert(err != nil || isNil(rv), "C10.typed-map-read/inconvertible-key-reads-nil-or-fails/"+id)
+		} else if want, has := mirror[ck]; has {
+			zz.Assert(err == nil && zzElemIs(rv, want), "C10.typed-map-read/present-under-converted-key/"+id)
+		} else {
+			zz.Assert(err == nil && isNil(rv), "C10.typed-map-read/missing-key-is-nil/"+id)
+		}
+		zz.Assert(same(), "C10.typed-map-read/container-unchanged/"+id)
+	case 1: // write
+		w := zz.Int64()
+		err := zzAssignItem(e, key, w)
+		if !convertible {
+			zz.Assert(err != nil, "C10.typed-map-write/inconvertible-key-is-error/"+id)
+		} else {
+			zz.Assert(err == nil, "C10.typed-map-write/no-error/"+id)
+			mirror[ck] = w
+		}
+		zz.Assert(same(), "C10.typed-map-write/exactly-addressed-entry-stored/"+id)
+	case 2: // delete
+		_, err := zzExec(e, &ast.DeleteStmt{Item: zzIdent("a"), Key: zzLit(key)})
+		if convertible {
+			zz.Assert(err == nil, "C10.typed-map-delete/no-error/"+id)
+			delete(mirror, ck)
+		}
+		zz.Assert(same(), "C10.typed-map-delete/only-addressed-entry-removed/"+id)
+	}
+}
+
 func zzUnwrapNil(rv reflect.Value) reflect.Value {
 	return rv
 }
